@@ -203,3 +203,51 @@ Proof.
     + intros j p o Hj Ho. exact (Hp j p o Hj Ho).
     + intros j f Hj. exact (Hf j f Hj).
 Qed.
+
+(* ------------------------------------------------------------------------------------- *)
+(* readers racing with renewals                                                             *)
+
+Lemma seg_equiv : forall script s, seg_ok script s = true <-> seg_spec script s.
+Proof.
+  intros script s. unfold seg_ok, seg_spec. rewrite !andb_true_iff, !Z.leb_le. tauto.
+Qed.
+
+Lemma increasing_equiv : forall l prev,
+  increasing prev l = true <->
+  (forall a, nth_error l 0 = Some a -> prev < sg_res a) /\
+  (forall i a b, nth_error l i = Some a -> nth_error l (S i) = Some b -> sg_res a < sg_res b).
+Proof.
+  induction l as [|s l IH]; intros prev; cbn [increasing].
+  - split; [intros _; split; [intros a H|intros [|i] a b H]; discriminate H|reflexivity].
+  - rewrite andb_true_iff, Z.ltb_lt, IH. split.
+    + intros (H0 & H1 & H2). split.
+      * intros a Ha; cbn in Ha; inversion Ha; subst; exact H0.
+      * intros [|i] a b Ha Hb; cbn in Ha, Hb.
+        -- inversion Ha; subst. apply H1; exact Hb.
+        -- eapply H2; eauto.
+    + intros (H0 & H1). split; [apply H0; reflexivity|]. split.
+      * intros a Ha. apply (H1 O s a); [reflexivity|exact Ha].
+      * intros i a b Ha Hb. apply (H1 (S i) a b); assumption.
+Qed.
+
+Lemma reader_equiv : forall script l,
+  reader_ok script l = true <->
+  (forall s, In s l -> seg_spec script s) /\
+  (forall i a b, nth_error l i = Some a -> nth_error l (S i) = Some b -> sg_res a < sg_res b).
+Proof.
+  intros script l. unfold reader_ok. rewrite andb_true_iff, forallb_forall, increasing_equiv. split.
+  - intros (H1 & _ & H3). split; [|exact H3]. intros s Hin. apply seg_equiv, H1, Hin.
+  - intros (H1 & H3). split; [intros s Hin; apply seg_equiv, H1, Hin|]. split; [|exact H3].
+    intros a Ha. assert (Hin : In a l) by (eapply nth_error_In; eauto).
+    destruct (H1 a Hin) as (H0 & _). lia.
+Qed.
+
+Theorem conc_oracle_sound : forall script nreq ready_ok readers,
+  conc_oracle script nreq ready_ok readers = true <-> conc_spec script nreq ready_ok readers.
+Proof.
+  intros script nreq ready_ok readers. unfold conc_oracle, conc_spec.
+  rewrite !andb_true_iff, Z.eqb_eq, forallb_forall. split.
+  - intros ((H1 & H2) & H3). split; [exact H1|]. split; [exact H2|].
+    intros l Hin. apply reader_equiv, H3, Hin.
+  - intros (H1 & H2 & H3). split; [split; assumption|]. intros l Hin. apply reader_equiv, H3, Hin.
+Qed.
